@@ -476,6 +476,13 @@ def _refit_shard(spec, emit):
                     refspec = (refspec[0], refspec[1], icpt)
                 if est_name == "GLE":
                     est.penalty = L1(a)
+                if rng.random() < 0.35:
+                    # the next batch / another fold: other data of the same shape (a warm start re-uses the previous
+                    # coefficients, nothing else of the previous fit)
+                    X = C.make_X(rng, n, p, str(rng.choice(["gauss", "ar", "shifted"])), rho=0.9)
+                    y = C.make_target(rng, X, "pm1" if classif else "real")
+                    if classif and rng.random() < 0.5:
+                        y = -y          # the same two classes with their roles exchanged
             try:
                 with warnings.catch_warnings():
                     warnings.simplefilter("ignore")
